@@ -59,6 +59,14 @@ Theorem C22_inv_step_drop_trafos_refuted :
 Proof. exact drop_trafos_refuted. Qed.
 Print Assumptions C22_inv_step_drop_trafos_refuted.
 
+(* reindex_elements (any element table, any lookup, partial or total) after the repair: switches of the matching et,
+   measurements, costs, group members and the result table follow the lookup; the only remaining guard is
+   G22_reindex: no controller targets a re-indexed element (C22_reindex_elements_controller_refuted otherwise) *)
+Theorem C22_inv_step_reindex_elements_partial : forall n k lk n',
+  G22_reindex n k lk = true -> Resolves n -> reindex_elements n (TEl k) lk = Ok n' -> Resolves n'.
+Proof. intros. apply Inv_Resolves. eapply inv_step_reindex_elements; eauto. apply Inv_Resolves. assumption. Qed.
+Print Assumptions C22_inv_step_reindex_elements_partial.
+
 (* reachability: every net reached from the empty net by a guarded edit list satisfies the invariant
    (induction over the list; G22 is [false] for the edits that have no inv_step theorem) *)
 Theorem C22_inv_reachable : forall ops n, Resolves n -> guarded n ops = true -> Resolves (run_ops n ops).
